@@ -127,7 +127,7 @@ def regen_makefile():
 def coqc_file(path, timeout=600):
     """Compile one scratch .v file (outside the project tree) and return (rc, output)."""
     d = os.path.dirname(path)
-    cmd = ['timeout', str(timeout), 'coqc'] + COQ_FLAGS + ['-Q', d, 'Scratch', path]
+    cmd = ['bash', '-c', 'ulimit -s unlimited 2>/dev/null; exec "$@"', 'coqc-wrapper', 'timeout', str(timeout), 'coqc'] + COQ_FLAGS + ['-Q', d, 'Scratch', path]
     p = subprocess.run(cmd, stdout=subprocess.PIPE, stderr=subprocess.STDOUT, universal_newlines=True, cwd=d)
     return p.returncode, p.stdout
 
@@ -171,7 +171,7 @@ def eval_model(module_imports, exprs, wd, name='cases', timeout=900):
     file prints one line per term between markers so that wrapped output is reassembled reliably.
     Returns list of python strings."""
     out_all = []
-    shard = 400
+    shard = 100
     files = []
     for si in range(0, len(exprs), shard):
         part = exprs[si:si + shard]
